@@ -16,7 +16,7 @@ from .core import Relation, err_kind
 
 PROP = "C01"
 CLAIMED = True
-COQ_MODULES = ["C01_Check", "C01_Proofs", "C01_Bsearch", "C01_Kernel", "C01_Mosaic", "C01_MosaicInst"]
+COQ_MODULES = ["C01_Check", "C01_Proofs", "C01_Bsearch", "C01_Kernel", "C01_Mosaic", "C01_MosaicInst", "C01_MosaicDraws"]
 PROPERTY_MODULE = "C01_Property"
 ALLOWED_AXIOMS = []
 
@@ -45,8 +45,11 @@ TRANSLATION = {
 }
 RULE = (
     "kernel: parents of 1-3 chromosomes x 1-8 tracts with coordinates from a small grid so that "
-    "start/end collide with tract ends (+-1); non-trivial = admixed copy whose interval crosses or "
-    "ends on a parental boundary. child: simulate_gt on generated maps/models with recorded draws; "
+    "start/end collide with tract ends (+-1), a tenth of them with the grid shifted to 2^31-53 .. 2^31-3 so that "
+    "tract ends, starts and ends touch the int32 sentinel (intervals [2^31-2, 2^31-1], [2^31-1, 2^31-1]); non-trivial = "
+    "admixed copy whose interval crosses or ends on a parental boundary. child: simulate_gt on generated maps/models with "
+    "recorded draws, half of them with width-boundary features (a marker at 2^31-2 before a last marker at or beyond 2^31-1 / "
+    "2^32, single-marker chromosomes, cM values printed in exponent form); "
     "non-trivial = admixed child with >= 1 recombination event. Distinct = distinct canonical JSON."
 )
 TRUSTED = [
@@ -98,14 +101,18 @@ class Kernel(Relation):
     def generate(self, rng, n, tier):
         cases = []
         grid = np.array([1, 2, 3, 5, 8, 9, 10, 11, 20, 21, 22, 30, 40, 41, 50])
+        grid_lo = grid
+        grid_hi = MAXI - 1 - grid[::-1]            # tract ends MAXI-51 .. MAXI-2: intervals touching the int32 sentinel
         for i in range(n):
+            hi = rng.random() < 0.1
+            grid = grid_hi if hi else grid_lo
             nprev = int(rng.integers(1, 4))
             prev = [self._parent(rng, grid) for _ in range(nprev)]
             h = int(rng.integers(0, nprev))
             par = prev[h]
             c = int(rng.choice([s[1] for s in par]))
             ends = [s[2] for s in par if s[1] == c]
-            starts = [0] + [e + d for e in ends[:-1] for d in (0, 1)] + [int(rng.choice(grid))]
+            starts = [0] + [e + d for e in ends[:-1] for d in (0, 1)] + [int(rng.choice(grid))] + ([MAXI - 1, MAXI] if hi else [])
             stops = [MAXI] + [e + d for e in ends[:-1] for d in (-1, 0, 1)] + [int(rng.choice(grid)) + 1]
             a, b = int(rng.choice(starts)), int(rng.choice(stops))
             if b < a:
@@ -132,7 +139,7 @@ class Kernel(Relation):
                 prev[h] = [s for s in par if not (s[1] == c and s[2] == MAXI)]
                 kind = "short-chrom"
             cases.append({"pop": pop, "h": h, "chrom": c, "start": a, "end": b,
-                          "cm": int(rng.integers(50, 60)), "prev": prev, "kind": kind})
+                          "cm": int(rng.integers(50, 60)), "prev": prev, "kind": kind, "near_sentinel": bool(hi)})
         return cases
 
     def exhaustive(self, tier):
@@ -189,6 +196,8 @@ class Kernel(Relation):
 
     def classes(self, inp, obs):
         out = [inp["kind"]]
+        if inp.get("near_sentinel"):
+            out.append("coordinates-within-52-of-2^31-1")
         if inp["kind"] in ("wellformed", "exhaustive"):
             ends = [s[2] for s in inp["prev"][inp["h"]] if s[1] == inp["chrom"]]
             if inp["end"] in ends:
@@ -232,8 +241,65 @@ class Kernel(Relation):
 # ---------------------------------------------------------------------------
 
 
-def make_config(rng, small=False):
-    """A simgenotype configuration: maps, model, popsize, optional region."""
+# population labels: the reader's 'U6' field holds 6 characters
+SHORT_POPS = ["CEU", "YRI", "P0", "P1", "P2", "AB_CDE", "pop123", "x", "Nat_1", "1"]
+LONG_POPS = ["African", "European", "Admixed_European", "EuropeB", "EuropeC", "pop1234", "pop1235", "East_Asian_1"]
+
+
+def widen(cfg, rng):
+    """Width-boundary features on top of a configuration (each with its own probability): population labels of
+    6 / 7 / more characters (also pairs sharing their first 6), a chromosome with a single marker, a marker at
+    2^31-2 followed by a last marker at or beyond 2^31-1 (and 2^32), cM values whose repr is exponential."""
+    cfg = dict(cfg, maps={c: [list(r) for r in rows] for c, rows in cfg["maps"].items()})
+    feats = []
+    K = len(cfg["pops"])
+    r = rng.random()
+    if r < 0.35:
+        names = [str(x) for x in rng.choice(SHORT_POPS, size=K, replace=False)]
+        cfg["pops"] = names
+        feats.append("labels<=6")
+    elif r < 0.6:
+        pool = SHORT_POPS + LONG_POPS
+        names = [str(x) for x in rng.choice(pool, size=K, replace=False)]
+        if not any(len(n) > 6 for n in names):
+            names[int(rng.integers(0, K))] = str(rng.choice(LONG_POPS))
+        if rng.random() < 0.5 and K >= 2:
+            i, j = [int(x) for x in rng.choice(K, size=2, replace=False)]
+            names[i], names[j] = ("EuropeB", "EuropeC") if rng.random() < 0.5 else ("pop1234", "pop1235")
+            feats.append("labels-share-6-prefix")
+        if len(set(names)) == K:
+            cfg["pops"] = names
+            feats.append("labels>6")
+    chs = list(cfg["maps"])
+    free = [c for c in chs if not (cfg["region"] and cfg["region"]["chr"] == c)]
+    if free and rng.random() < 0.3:
+        c = free[int(rng.integers(0, len(free)))]
+        cfg["maps"][c] = cfg["maps"][c][:1]
+        if rng.random() < 0.5:
+            cfg["maps"][c][0][1] = float(rng.choice([0.000001, 0.00001, 1e16, 123456789.123456]))
+            feats.append("cm-repr-exponential")
+        feats.append("single-marker-chromosome")
+    free = [c for c in free if len(cfg["maps"][c]) >= 3]
+    if free and rng.random() < 0.35:
+        c = free[int(rng.integers(0, len(free)))]
+        rows = cfg["maps"][c]
+        rows[-2][2] = 2**31 - 2                       # the largest position below the sentinel
+        rows[-1][2] = int(rng.choice([2**31 - 1, 2**31 + 5, 2**32 + 7]))
+        rows[-2][1] = round(rows[-3][1] + 300.0, 6)   # events at the last two markers are likely
+        rows[-1][1] = round(rows[-2][1] + 300.0, 6)
+        feats.append("marker-at-2^31-2")
+    cfg["wide"] = feats
+    return cfg
+
+
+def make_config(rng, small=False, wide=False):
+    """A simgenotype configuration: maps, model, popsize, optional region.  With wide=True the width-boundary
+    features of [widen] are drawn on top (the draws of the plain configuration come first and are unchanged)."""
+    cfg = _make_config(rng)
+    return widen(cfg, rng) if wide else cfg
+
+
+def _make_config(rng):
     allch = [str(c) for c in range(1, 23)] + ["X"]
     k = int(rng.integers(1, 5))
     idx = sorted(rng.choice(23, size=k, replace=False).tolist())
@@ -308,7 +374,8 @@ class Recorder:
 
         def randint(*a, **k):
             r = ri(*a, **k)
-            self.log.append(("randint", a, k, r))
+            # a copy: _simulate overwrites cells of the parental array in its re-draw loop
+            self.log.append(("randint", a, k, r.copy() if isinstance(r, np.ndarray) else r))
             return r
 
         def rand(*a):
@@ -409,7 +476,9 @@ class Child(Relation):
                ("haptools/sim_genotype.py", "get_segment")]
 
     def generate(self, rng, n, tier):
-        return [make_config(rng) for _ in range(n)]
+        # half of the configurations carry width-boundary features (a marker at 2^31-2 before a last marker
+        # at/after 2^31-1, single-marker chromosomes, long population labels, exponential cM reprs)
+        return [make_config(rng, wide=bool(rng.random() < 0.5)) for _ in range(n)]
 
     def run_impl(self, cfg):
         d = tempfile.mkdtemp(prefix="hv_c01_")
@@ -446,9 +515,11 @@ class Child(Relation):
         return "children" in obs and any(k["pop"] == 0 and k["evs"] for k in obs["children"])
 
     def classes(self, cfg, obs):
-        out = [f"chroms={len(cfg['chroms'])}", f"region={'y' if cfg['region'] else 'n'}"]
+        out = [f"chroms={len(cfg['chroms'])}", f"region={'y' if cfg['region'] else 'n'}"] + list(cfg.get("wide", []))
         if "children" in obs:
             ks = obs["children"]
+            if any(s[2] == MAXI - 1 for k in ks for s in k["obs"].get("ok", [])):
+                out.append("tract-ending-at-2^31-2")
             out.append(f"children~{min(len(ks) // 20 * 20, 200)}")
             if any(k["pop"] == 0 and any(e[0] != k["chroms"][0] for e in k["evs"]) for k in ks):
                 out.append("event-on-later-chrom")
@@ -531,8 +602,9 @@ LEVEL_TEXT = (
 LEVEL_NOTE = (
     "Trusted: Coq kernel/vm_compute; for start_segment/get_segment/the per-child loop the translator (Python ast -> "
     "MiniPy syntax) and the MiniPy interpreter's reading of Python, both exercised by the tv_kernel/tv_child relations; "
-    "the numpy statements of _simulate before the loop (parent and recombination draws) stay hand-modelled and enter as "
-    "recorded data (universally quantified in the theorems); cM values are opaque tokens. Theorems are stated under the "
+    "the numpy statements of _simulate before the loop (parent draws, re-draw loop, mask selection and sort of recombination "
+    "points) are the hand model C02_Draws.decode_gen, compared with the recorded raw draws on every generation (C02's relation "
+    "draws); numpy's contract on the raw draws is a hypothesis (C01_generation_mosaic_from_contract); cM values are opaque tokens. Theorems are stated under the "
     "kernel precondition _simulate establishes (sorted parent reaching the interval end)."
 )
 TECHNIQUE = ("Coq proof by induction on tract lists; model regenerated from the source by a translator and proved equal to "
